@@ -41,6 +41,19 @@ pub fn gen_sort_knobs(rng: &mut Rng, small_regime: bool) -> SortKnobs {
 
 pub fn gen_inserts(rng: &mut Rng, maxn: usize, max_entry: Option<usize>, threshold: usize) -> Vec<(B, B)> {
     let n = rng.log_uniform(0, maxn as u64) as usize;
+    if max_entry.is_none() && rng.chance(1, 12) {
+        // degenerate histories: a handful of inserts over {"", one-byte keys} with empty or tiny values
+        let n = rng.urange(1, 6);
+        let keys: [&[u8]; 4] = [b"", b"", b"\x00", b"\xff"];
+        let mut out = Vec::new();
+        let only_empty = rng.chance(1, 2);
+        for _ in 0..n {
+            let k = if only_empty { &b""[..] } else { *rng.pick(&keys) };
+            let v: Vec<u8> = if rng.chance(2, 3) { Vec::new() } else { vec![0x00, 0x06, 0, 0, 0, out.len() as u8] };
+            out.push((B(k.to_vec()), B(v)));
+        }
+        return out;
+    }
     let pool_n = if rng.chance(1, 3) { n.max(1) * 4 } else { rng.urange(1, 40) };
     let class = [gen::KeyClass::Alpha, gen::KeyClass::Counter, gen::KeyClass::Random][rng.usize_below(3)];
     let pool = gen::gen_keys(rng, pool_n, class, 1024);
@@ -194,7 +207,8 @@ fn judge_output(
                             return Some(("value-malformed".into(), format!("key {:02x?}: value is not a sequence of inserted records", k)));
                         }
                     };
-                    let mut w: Vec<Vec<u8>> = mvals.clone();
+                    // empty values contribute nothing to a concatenation
+                    let mut w: Vec<Vec<u8>> = mvals.iter().filter(|v| !v.is_empty()).cloned().collect();
                     got.sort();
                     w.sort();
                     if got != w {
